@@ -76,15 +76,33 @@ def canonicalise(world, top):
                 ents.append(e0)
                 continue
             cfg = refmodel.entry_config(e, root)
-            argv = [W.entry_argv(e)[0]] + ["-D" + d for d in cfg["defines"]]
-            for d in cfg["I"]:
-                argv += ["-I", canon(d)]
-            for d in cfg["isystem"]:
-                argv += ["-isystem", canon(d)]
-            for f in cfg["forced"]:
-                argv += ["-include", canon(f) if os.path.isabs(f) else f]
+            d = cfg["directory"]
+
+            def cpath(p):
+                return canon(p if os.path.isabs(p) else os.path.join(d, p))
+
+            # token-wise: only path-valued arguments are rewritten, everything else is kept verbatim
+            src = W.entry_argv(e)
+            argv = [src[0]]
+            k = 1
+            while k < len(src):
+                a = src[k]
+                if a in ("-I", "-isystem") and k + 1 < len(src):
+                    argv += [a, cpath(src[k + 1])]
+                    k += 2
+                elif a == "-include" and k + 1 < len(src):
+                    argv += [a, canon(src[k + 1]) if os.path.isabs(src[k + 1]) else src[k + 1]]
+                    k += 2
+                elif a.startswith("-I") and len(a) > 2:
+                    argv += ["-I", cpath(a[2:])]
+                    k += 1
+                elif a == e["file"]:
+                    k += 1      # the file argument is re-added canonically below
+                else:
+                    argv.append(a)
+                    k += 1
             cf = canon(cfg["file"])
-            argv += list(cfg["other"]) + ["-c", cf]
+            argv += ["-c", cf]
             ents.append({"file": cf, "arguments": argv})
         p["entries"] = ents
     return w, aliased_refs
@@ -180,14 +198,14 @@ def execute(case, scratch):
         for l in world.get("links", []):
             lp = os.path.join(top, l["path"])
             if l.get("kind") == "dir":
-                tgt = os.path.normpath(os.path.join(os.path.dirname(l["path"]), l["target"]))
+                tgt = os.path.relpath(os.path.realpath(lp), top)
                 for m in sorted(mc):
                     if m.startswith(tgt + "/"):
                         paths.append(os.path.join(top, l["path"] + m[len(tgt):]))
                         want.append(True)
                         break
             elif l.get("kind") in ("file", "xfile"):
-                tgt = os.path.normpath(os.path.join(os.path.dirname(l["path"]), l["target"]))
+                tgt = os.path.relpath(os.path.realpath(lp), top)
                 paths.append(lp)
                 want.append(tgt in mc)
             elif l.get("kind") in ("dangling", "outside"):
